@@ -90,7 +90,7 @@ class Contract:
                  raises=(), modifies=(), loops=(), assumed=False, pure=False,
                  self_type=None, ghost=None, fresh_result=False, notes='',
                  total=True, locals=None, may_raise_other=False, decreases=None,
-                 asserts=(), frame_carries=None, escape_carries=None, hints=()):
+                 asserts=(), frame_carries=None, escape_carries=None, hints=(), inst=()):
         self.qualname = qualname
         self.params = dict(params or {})
         self.returns = returns
@@ -108,6 +108,7 @@ class Contract:
         self.decreases = decreases
         self.asserts = list(asserts)
         self.hints = list(hints)     # expressions evaluated at every exit (unfolding triggers)
+        self.inst = list(inst)       # extra terms at which quantified assumptions are instantiated
         self.frame_carries = frame_carries
         self.escape_carries = escape_carries
 
